@@ -493,6 +493,129 @@ def wl_arc_utils(run, rng, idx):
     run.note_class("arc-utils", shape)
 
 
+# ---------------------------------------------------------------------------
+# histories: the property is claimed of *every* segment / geodesic / horosphere
+# object that is alive, not only of freshly built ones
+
+RELATIVES = ["original", "flatten_to_unit", "reshape", "construct", "astype", "getitem"]
+KEYKINDS = ["index", "slice", "mask", "negative-index"]
+
+
+def wl_histories(run, rng, idx):
+    """A composite object, objects derived from it (flatten_to_unit(), reshape(),
+    Class(obj), astype(), obj[:]) -- all kept alive --, then item assignments
+    into one of them (integer / tuple / slice / row / boolean-mask keys, the new
+    value given as an object or as a raw array), with *every* live object queried
+    before the first and after each assignment.  The attached postconditions
+    judge each answer against the data the answering object holds at that
+    moment: its ideal endpoints must be on the Klein line through *its*
+    endpoints, its circle must pass through *its* endpoints, whatever happened
+    to its relatives (coherence of the stored data itself is C11's subject).
+    Seeded change C14-r4-1: __setitem__ writing the new ideal endpoints in place
+    into an auxiliary array that flatten_to_unit / reshape / Class(obj) share
+    with the object they were derived from; the same history exposes answers
+    memoised per object and not invalidated by an assignment."""
+    H = lib()
+    n = pick_dim(idx)
+    kind = ["segment", "segment", "geodesic", "horosphere"][(idx // 4) % 4]
+    shape = [(5,), (2, 3), (6,)][(idx // 16) % 3]
+    N = int(np.prod(shape))
+    einf = np.zeros(n)
+    einf[0] = 1.0
+
+    def away(k, margin=0.35):
+        return np.where(rc.inf_distance(k)[..., None] < margin, -k, k)
+
+    def make(shp):
+        """(library object, description) of a composite of the given shape."""
+        if kind == "segment":
+            kp = away(rh.rand_ball(rng, n, shp, rmax=0.9))
+            kq = away(rh.rand_ball(rng, n, shp, rmax=0.9))
+            close = np.linalg.norm(kp - kq, axis=-1, keepdims=True) < 0.05
+            kq = np.where(close, -kq, kq)
+            lam = rng.uniform(0.5, 2.0, size=shp + (1,))
+            data = np.stack([rh.klein_to_proj(kp) * lam, rh.klein_to_proj(kq)], axis=-2)
+            return H.Segment(data), data
+        if kind == "geodesic":
+            e1 = away(rh.rand_sphere(rng, n, shp))
+            e2 = away(rh.rand_sphere(rng, n, shp))
+            e2 = np.where(np.linalg.norm(e1 - e2, axis=-1, keepdims=True) < 0.3, -e2, e2)
+            e2 = np.where(rc.inf_distance(e2)[..., None] < 0.3, -e1, e2)
+            data = np.stack([rh.klein_to_proj(e1), rh.klein_to_proj(e2)], axis=-2)
+            return H.Geodesic(H.IdealPoint(data[..., 0, :]), H.IdealPoint(data[..., 1, :])), data
+        e = away(rh.rand_sphere(rng, n, shp))
+        kp = away(rh.rand_ball(rng, n, shp, rmax=0.9, rmin=0.2))
+        data = np.stack([rh.klein_to_proj(e) * rng.uniform(0.5, 2.0, size=shp + (1,)),
+                         rh.klein_to_proj(kp)], axis=-2)
+        return H.Horosphere(H.IdealPoint(data[..., 0, :]), H.Point(data[..., 1, :])), data
+
+    def query(o, rnd):
+        if kind == "segment":
+            for model in MODELS:
+                o.circle_parameters(model=sp(model), degrees=bool((idx + rnd) % 2))
+            o.ideal_endpoint_coords(sp("klein"))
+            o.ideal_endpoint_coords(sp(MODELS[(idx + rnd) % 2]))
+        elif kind == "geodesic":
+            for model in MODELS:
+                o.circle_parameters(model=sp(model), degrees=bool((idx + rnd) % 2))
+        else:
+            for model in MODELS:
+                o.sphere_parameters(sp(model))
+
+    obj, data = make(shape)
+    new_shape = {(5,): (5, 1), (2, 3): (3, 2), (6,): (2, 3)}[shape]
+    live = {"original": obj,
+            "flatten_to_unit": obj.flatten_to_unit(),
+            "reshape": obj.reshape(new_shape),
+            "construct": type(obj)(obj),
+            "astype": obj.astype("float64"),
+            "getitem": obj[:]}
+    case = {"workload": "histories", "kind": kind, "dimension": n, "shape": list(shape),
+            "data": data, "history": ["derive " + ", ".join(RELATIVES[1:])]}
+    run.current_case = case
+    for name, o in live.items():
+        case["querying"] = name + " (before any assignment)"
+        query(o, 0)
+    for rnd in (1, 2):
+        tname = RELATIVES[(idx + (rnd - 1) * (1 + idx // 6)) % len(RELATIVES)]
+        target = live[tname]
+        tshape = tuple(target.shape)
+        keykind = KEYKINDS[(idx // 3 + rnd) % len(KEYKINDS)]
+        if keykind in ("index", "negative-index"):
+            key = tuple(int(rng.integers(m)) for m in tshape)
+            if keykind == "negative-index":
+                key = tuple(k - m for k, m in zip(key, tshape))
+            key = key[0] if len(key) == 1 else key
+            vshape = ()
+        elif keykind == "slice":
+            if len(tshape) == 1:
+                a = int(rng.integers(0, tshape[0] - 1))
+                b = int(rng.integers(a + 1, tshape[0] + 1))
+                key = slice(a, b)
+                vshape = (b - a,)
+            else:
+                key = int(rng.integers(tshape[0]))      # a whole row
+                vshape = tshape[1:]
+        else:
+            mask = rng.random(tshape) < 0.4
+            mask.flat[int(rng.integers(mask.size))] = True
+            key = mask
+            vshape = (int(np.sum(mask)),)
+        value, vdata = make(vshape)
+        as_array = kind == "segment" and (idx + rnd) % 2 == 1
+        case["history"].append("%s[%s key %r] = %s of shape %r" % (
+            tname, keykind, key.tolist() if isinstance(key, np.ndarray) else key,
+            "array" if as_array else type(value).__name__, vshape))
+        case["assigned_%d" % rnd] = vdata
+        target[key] = vdata if as_array else value
+        for name, o in live.items():
+            case["querying"] = "%s (after assignment %d, into %s)" % (name, rnd, tname)
+            query(o, rnd)
+        run.note_class("history", kind, n, shape, tname, keykind, "array" if as_array else "object")
+    if idx < 2:
+        run.sample({k: v for k, v in case.items()})
+
+
 WORKLOADS = [
     Workload("segments", wl_segments, quick=300, thorough=12000),
     Workload("origin", wl_origin, quick=112, thorough=3200),
@@ -503,6 +626,7 @@ WORKLOADS = [
     Workload("horoarcs", wl_horoarcs, quick=96, thorough=3000),
     Workload("subspaces", wl_subspaces, quick=240, thorough=7200),
     Workload("arc-utils", wl_arc_utils, quick=80, thorough=2400),
+    Workload("histories", wl_histories, quick=48, thorough=1440),
 ]
 
 
